@@ -198,6 +198,7 @@ type exploreStats struct {
 	MaxPoints   int            `json:"max_points"`
 	Horizon     int            `json:"horizon_hits"`
 	Diverged    int            `json:"replay_divergences"`
+	Unreproduced int           `json:"failures_not_reproduced_map_order"`
 	Unreproducible int         `json:"unreproducible_prefixes"`
 	Outcomes    map[string]int `json:"outcomes"`
 	Terminals   map[string]int `json:"terminals"`
@@ -227,6 +228,7 @@ func (st *exploreStats) merge(o *exploreStats) {
 	}
 	st.Horizon += o.Horizon
 	st.Diverged += o.Diverged
+	st.Unreproduced += o.Unreproduced
 	st.Unreproducible += o.Unreproducible
 	for k, v := range o.Outcomes {
 		st.Outcomes[k] += v
@@ -345,8 +347,15 @@ func exploreFrom(sc *Scenario, root []int, bound int, deadline time.Time, st *ex
 			}
 			seenViol[v[0]] = true
 			// determinism: the same schedule must give the same observation
-			y := runSchedule(sc, s.Choices, true)
-			if outcomeOf(y) != outcomeOf(x) {
+			y, same := replaySame(sc, s.Choices, x)
+			if !same {
+				if sc.MapOrder {
+					// the code under test iterates a Go map: the same choices need not meet the same execution;
+					// a failure that no replay reproduces is counted, not reported
+					st.Unreproduced++
+					seenViol[v[0]] = false
+					continue
+				}
 				st.Violations = append(st.Violations, exploreViol{Sig: "HARNESS|nondeterministic-replay", Detail: "replaying the failing schedule gave a different outcome: " + v[0], Choices: s.Choices, Scenario: sc.Name})
 				continue
 			}
@@ -721,14 +730,36 @@ func exploreDPOR(sc *Scenario, deadline time.Time, st *exploreStats) {
 			}
 			seenViol[v[0]] = true
 			// the recorded choices reproduce the execution without the reduction
-			y := runSchedule(sc, s.Choices, true)
-			if outcomeOf(y) != outcomeOf(x) {
+			y, same := replaySame(sc, s.Choices, x)
+			if !same {
+				if sc.MapOrder {
+					st.Unreproduced++
+					seenViol[v[0]] = false
+					continue
+				}
 				st.Violations = append(st.Violations, exploreViol{Sig: "HARNESS|nondeterministic-replay", Detail: "replaying the failing schedule gave a different outcome: " + v[0], Choices: s.Choices, Scenario: sc.Name})
 				continue
 			}
 			st.Violations = append(st.Violations, exploreViol{Sig: v[0], Detail: v[1], Choices: append([]int{}, s.Choices...), Trace: describe(y), Scenario: sc.Name})
 		}
 	}
+}
+
+// replaySame runs the schedule again and tells whether the observation is the same. Scenarios whose code
+// under test iterates a Go map get several attempts (each iteration order is a different execution).
+func replaySame(sc *Scenario, choices []int, x *Exec) (*Exec, bool) {
+	attempts := 1
+	if sc.MapOrder {
+		attempts = 12
+	}
+	var y *Exec
+	for a := 0; a < attempts; a++ {
+		y = runSchedule(sc, choices, true)
+		if y.Sched.Divergence == "" && outcomeOf(y) == outcomeOf(x) {
+			return y, true
+		}
+	}
+	return y, false
 }
 
 func checkExec(sc *Scenario, x *Exec) [][2]string {
@@ -1030,6 +1061,7 @@ func runExploreSel(propID, group string, scenarios []*Scenario, bound int, tier 
 	addCov("distinct_outcomes", len(total.Outcomes))
 	addCov("horizon_hits", total.Horizon)
 	addCov("replay_divergences", total.Diverged)
+	addCov("failures_not_reproduced_map_order", total.Unreproduced)
 	addCov("prefixes_skipped_map_iteration_order", total.Unreproducible)
 	rep.Coverage["preemption_bound_"+group] = bound
 	if bound < 0 {
